@@ -106,7 +106,11 @@ def validate_chunk(cp):
 
 
 def run(tier, seed):
-    V = vlib.Verdict(PROP, tier, seed)
+    # the block arithmetic of the heap walk (pages of many small blocks with scattered holes are walked and compared with the live blocks)
+    from checks import apifam
+    V, wcov = apifam.run_api(PROP, tier, seed, profiles=["c16w"], builds=["rel", "dbg"], own_guards={"WalkCount", "WalkEveryLiveOnce", "WalkOnlyLive", "AreasCoverAll", "AreaUsedCount"},
+                             crash_decisive=True, gen=(0, 0), nruns=(2, 6), ops=(2500, 8000), maxlive=(1200, 3000), finish=False,
+                             extra_runs=[{"_args": ["--scenario", "walkholes"], "_tag": "walkholes"}])
     thorough = (tier != "quick")
     od = vlib.outdir(PROP)
     for f in os.listdir(od):
@@ -243,6 +247,7 @@ def run(tier, seed):
                           + "; pages of every reachable block size at several positions of a segment, large and huge pages, aligned allocations",
         "model_divergences": ["%s %s x%d" % (b, sig, n) for (b, sig), (n, _) in sorted(diverged.items())],
         "decisive_guards": sorted(DECISIVE),
+        "heap_walk": {k: wcov.get(k) for k in ("traces_validated_against_impl", "trace_events_validated", "decisive_guards")},
         "samples": samples[:14],
         "exhaustive": exhaustive,
     }
